@@ -311,6 +311,12 @@ void QXmppOutgoingClient::connectToHost()
 void QXmppOutgoingClient::disconnectFromHost()
 {
     d->c2sStreamManager.onStreamClosed();
+    if (!d->sessionStarted && !d->socket.isConnected()) {
+        // There is no connection whose end will be reported (closeSession() will not run): a
+        // session that was kept for resumption ends here and its IQ requests cannot be answered
+        // anymore.
+        d->iqManager.onSessionClosed(SessionEnd { false });
+    }
     d->socket.disconnectFromHost();
 }
 
@@ -1228,12 +1234,14 @@ void OutgoingIqManager::finish(const QString &id, IqResult &&result)
 
 void OutgoingIqManager::cancelAll()
 {
-    for (auto &[id, state] : m_requests) {
+    // a continuation may send new requests or end the session again: work on a detached table
+    auto requests = std::move(m_requests);
+    m_requests.clear();
+    for (auto &[id, state] : requests) {
         state.interface.finish(QXmppError {
             u"IQ has been cancelled."_s,
             QXmpp::SendError::Disconnected });
     }
-    m_requests.clear();
 }
 
 void OutgoingIqManager::onSessionOpened(const SessionBegin &session)
